@@ -6,7 +6,7 @@
        + token continuations (doInternal: registered before the write, removed when the call returns:
          a request of the Retx model has its continuation exactly while it is not Done)
        + AsyncPing entries  (pending entries without a caller and without a deadline; same tick rule)
-     per-ID lock map       Conn.MutexMap (handleReq: Lock(mid) ... Unlock)
+     per-ID lock map       Conn.MutexMap (handleReq: TryLock(mid), else Lock(mid) ... Unlock)
      block-wise caches     Blockwise.Model tables (tput / tdel on sending / receiving, expiry sweep)
      limiter               Limiter.Model (endpoint queues + total semaphore)
      observations          Observe.Model (registration, first response, notifications, cancel)
@@ -75,8 +75,14 @@ Record conn := mkConn {
 }.
 
 Inductive cev :=
-(* a datagram reaches handleReq: Lock(mid); cache lookup; handler (answers or not); store; Unlock *)
+(* a datagram reaches handleReq: for the peer's CON/NON TryLock(mid) (free: taken at once); cache
+   lookup; handler (answers or not); store; Unlock.  An ACK/RST takes no per-ID lock. *)
 | EIn (typ code mid : Z) (answered : bool)
+(* two copies of one CON/NON datagram, the second reaching handleReq (on a replacement reader loop)
+   while the handler of the first is still running: its TryLock(mid) fails, it asks for a
+   replacement loop and waits in Lock(mid); when the first has stored its reply and unlocked, the
+   second gets the lock and is answered from the cache *)
+| EInCont (typ code mid : Z) (answered : bool)
 (* a request call (doInternal + writeMessage) and what ends it *)
 | RxSend (r : Z) | RxPiggy (r : Z) | RxAck (r : Z) | RxRst (r : Z) | RxCancel (r : Z)
 (* limiter: Do is called / its context is cancelled / the wrapped function returns / run to rest *)
@@ -176,11 +182,27 @@ Definition ostep (s : conn) (e : O.ev) : conn :=
 
 Definition SETTLE_FUEL : nat := 64.
 
+(* handleReq's use of the per-ID lock map (two handler threads: reader loop and its replacement) *)
+Definition locks_mid (typ : Z) : bool := (typ =? 0) || (typ =? 1).
+(* uncontended: TryLock succeeds; Unlock = ExitMap, Release *)
+Definition lock_cycle (m : mmap) (mid : Z) : mmap :=
+  exec2 m [(0, mid, true); (0, mid, false); (0, mid, false)]%nat.
+(* contended: thread 0 TryLock ok; thread 1 TryLock fails, Lock enters and waits; thread 0 Unlock;
+   thread 1 acquires, Unlock *)
+Definition lock_cycle_contended (m : mmap) (mid : Z) : mmap :=
+  exec2 m [(0, mid, true); (1, mid, true); (1, mid, false); (0, mid, false); (0, mid, false);
+           (1, mid, false); (1, mid, false); (1, mid, false)]%nat.
+
 Definition step (c : R.cfg) (s : conn) (e : cev) : conn :=
   match e with
   | EIn typ code mid ans =>
-      let s1 := with_mx s (exec (mx s) [(O, mid); (O, mid); (O, mid); (O, mid)]) in
+      let s1 := if locks_mid typ then with_mx s (lock_cycle (mx s) mid) else s in
       with_dd s1 (fst (D.step (dd s1) (D.Req typ mid [] code [] (if ans then D.BResp 69 [] [] else D.BNone))))
+  | EInCont typ code mid ans =>
+      let s1 := with_mx s (lock_cycle_contended (mx s) mid) in
+      let rq := D.Req typ mid [] code [] (if ans then D.BResp 69 [] [] else D.BNone) in
+      let s2 := with_dd s1 (fst (D.step (dd s1) rq)) in
+      with_dd s2 (fst (D.step (dd s2) rq))
   | RxSend r => with_tk (rstep c s (R.Send r [] None)) (tstep (tk s) (TReg r r))
   | RxPiggy r => with_tk (rstep c s (R.Piggy r 69)) (tstep (tstep (tk s) (TDeliver r)) (TExit r))
   | RxAck r => rstep c s (R.Ack r)
@@ -216,7 +238,7 @@ Definition step (c : R.cfg) (s : conn) (e : cev) : conn :=
 Definition run (c : R.cfg) (s : conn) (evs : list cev) : conn := fold_left (step c) evs s.
 
 Definition init (limit epl : Z) : conn :=
-  mkConn (D.init 0) R.init toks0 [] [] [] (L.new_lim limit epl) O.st0 (MutexMap.init 1) [].
+  mkConn (D.init 0) R.init toks0 [] [] [] (L.new_lim limit epl) O.st0 (MutexMap.init 2) [].
 
 (* ---- table sizes, in the order the harness reads them ---- *)
 Definition n_tokens (s : conn) : Z := blen (ttab (tk s)).
